@@ -24,6 +24,9 @@ Devs == {"plain_part_null",          \* GetExport walks the part list and derefe
          "undef_part_stall",         \* ProcessFile does not advance PartRun when a record had an undefined symbol: the
                                      \* following records of the run are patched with the relocation info of the wrong part
                                      \* (repeated messages, NULL dereference when that part has none)
+         "patch_outside_unchecked",  \* ProcessFile indexes its record buffer with addr - start without looking at the record
+                                     \* length: a patch entry outside its record reads and writes foreign heap memory
+                                     \* (asl itself writes such entries at the 64 KiB record split, RelocWriter.tla)
          "dup_in_record_unnoticed",  \* ReadSymbols looks for a double definition only in the parts ALREADY in the list: two
                                      \* export entries with one name in the SAME relocation-info record pass, the first wins
          "reloc_plain_passthrough"}  \* a $83 record (relocatable, no symbols) is copied with its ORIGINAL address and
@@ -105,7 +108,8 @@ Patch(D, parts, part, z, st) ==
        IN IF g.crash THEN [st EXCEPT !.flag = "crash"]
           ELSE IF ~g.found THEN Patch(D, parts, part, z + 1, [st EXCEPT !.undef = Append(@, pt.name), !.failed = TRUE])
           ELSE IF ~Knows(pt.type) THEN [st EXCEPT !.flag = "type"]                               \* "unknown relocation type", exit(3)
-          ELSE IF ~FieldInside(st.buf, off, pt.type) THEN [st EXCEPT !.flag = "oob"]
+          ELSE IF ~FieldInside(st.buf, off, pt.type)
+               THEN [st EXCEPT !.flag = IF "patch_outside_unchecked" \in D THEN "oob" ELSE "format"]    \* repaired: format error
           ELSE LET old == FieldLE(st.buf, off, pt.type)
                    val == DigitsLE(g.value, Width(pt.type))
                    new == IF pt.type.sub THEN SubLE(old, val) ELSE AddLE(old, val)
@@ -148,7 +152,7 @@ ResultOf(s) ==
   CASE s.flag = "ok"     -> [rc |-> 0, body |-> s.out, undef |-> <<>>, dbl |-> <<>>]
     [] s.flag = "undef"  -> [rc |-> 1, body |-> <<>>, undef |-> s.undef, dbl |-> <<>>]        \* target unlinked
     [] s.flag = "dbl"    -> [rc |-> 1, body |-> <<>>, undef |-> <<>>, dbl |-> s.dbl]          \* target never opened
-    [] s.flag = "format" -> [rc |-> 3, body |-> <<>>, undef |-> <<>>, dbl |-> s.dbl]
+    [] s.flag = "format" -> [rc |-> 3, body |-> <<>>, undef |-> s.undef, dbl |-> s.dbl]
     [] s.flag = "type"   -> [rc |-> 3, body |-> <<>>, undef |-> s.undef, dbl |-> <<>>]        \* target left behind, incomplete
     [] s.flag = "crash"  -> [rc |-> RcCrash, body |-> <<>>, undef |-> s.undef, dbl |-> s.dbl]
     [] OTHER             -> [rc |-> RcAny, body |-> <<>>, undef |-> <<>>, dbl |-> <<>>]
@@ -224,7 +228,7 @@ Verdict(c, obs) ==
       ok   == ~def \/ Linked(c, obs)
       fits == {D \in SUBSET Devs : Fits(Run(D, c), obs)}
       best == CHOOSE D \in fits : \A E \in fits : Cardinality(D) <= Cardinality(E)
-  IN [definite |-> def, ok |-> ok, killed |-> obs.rc > 128,
+  IN [definite |-> def, ok |-> ok, killed |-> obs.rc > 128 \/ obs.rc = 124,      \* signal, or the harness's time limit
       fit |-> IF Fits(Run({}, c), obs) THEN <<>> ELSE IF fits = {} THEN <<"none">> ELSE SetToSeq(best),
       why |-> IF ok THEN "" ELSE IF obs.rc # Link_decl(c).rc THEN "exit status" ELSE IF obs.rc # 0 THEN "target file left behind"
               ELSE IF ~Decode(obs.bytes).ok THEN Decode(obs.bytes).why ELSE "linked image differs"]
